@@ -95,6 +95,12 @@ def run(ctx: core.Ctx):
             ctx.case((variant, tuple(arr), nd, str(prm)), nontrivial=len(set(arr)) > 2,
                      sample=dict(variant=variant, y=[int(v) for v in arr[:10]], nodata=nd, params={a: (b if not isinstance(b, list) else [b[0], b[-1], len(b)]) for a, b in prm.items()}))
             ctx.count(variant)
+    # recorded known finding, replayed on every run: lc = NaN in the gufunc
+    arr = np.array([10, 21, 16, 9, 3, 2, 5, 13, 12, 12], dtype="float64")
+    prm = dict(p=0.9, lc=float("nan"))
+    band, lopt = smooth.call("optvplc", arr, 0.0, prm)
+    lines.append(smooth.line("optvplc", arr, 0.0, prm))
+    refs.append(("optvplc", arr, 0.0, prm, band, lopt, [bool(v != 0) for v in arr]))
     for (variant, arr, nd, prm, band, lopt, m), a in zip(refs, ctx.driver.ask(lines)):
         inp = dict(variant=variant, y=[int(v) for v in arr], nodata=nd, params=prm)
         model = smooth.parse_answer(a)
